@@ -139,10 +139,10 @@ func isSignedSumOverflow(a, b int64, bits int) bool {
 	signBit := int64(1) << (bits - 1)
 	if b > 0 {
 		ceiling := signBit - 1
-		return b > (ceiling - a)
+		return a > (ceiling - b)
 	} else {
 		bottom := ^(signBit - 1)
-		return b < (bottom - a)
+		return a < (bottom - b)
 	}
 }
 
